@@ -9,11 +9,14 @@ import os
 
 from harness import graphgen
 from harness.fw import VERIF, Check, Driver
-from harness.graphsweep import NPROC, sweep
+from harness.graphsweep import NPROC, large_tasks, short_diff, sweep
 
 CMD = "rpo"
 EXE = "drv_C19"
 MODULE = "harness.props.c19"
+# hand-modelled functions: a changed AST is not a verdict, it escalates the search (ck.pins_changed)
+PINS = [("androguard/decompiler/graph.py", "Graph.post_order"), ("androguard/decompiler/graph.py", "Graph.compute_rpo"),
+        ("androguard/decompiler/graph.py", "Graph.all_sucs")]
 
 
 # ---------------------------------------------------------------- real code
@@ -64,10 +67,16 @@ def dfs_intervals(G):
     return pre, post
 
 
-def oracle(G, reply, num, rpo):
-    """judges rooted graphs only (the property's domain)"""
+def _brief(xs, k=12):
+    xs = list(xs)
+    return xs if len(xs) <= k else xs[:k] + ["… %d more" % (len(xs) - k)]
+
+
+def oracle(G, reply, num, rpo, desc=None):
+    """judges rooted graphs only (the property's domain).  desc = (family, n, seed) name of a large graph: the
+    failing case then carries the name instead of thousands of edges"""
     n, entry = G[0], G[1]
-    case = {"graph": graphgen.encode(G)}
+    case = {"large": desc} if desc else {"graph": graphgen.encode(G)}
     if not graphgen.is_rooted(G):
         return []
     if num is None:
@@ -76,8 +85,13 @@ def oracle(G, reply, num, rpo):
     if num[entry] != 1:
         out.append(dict(case=case, what="the entry is not numbered 1", key=None, expected=1, observed=num[entry]))
     if sorted(num) != list(range(1, n + 1)):
-        out.append(dict(case=case, what="the numbers are not a permutation of 1..n", key=None,
-                        expected="1..%d" % n, observed=num))
+        from collections import Counter
+        cnt = Counter(num)
+        out.append(dict(case=case, what="the numbers are not a permutation of 1..n", key=None, expected="1..%d" % n,
+                        observed=num if n <= 40 else {"num[entry]": num[entry],
+                                                      "missing": _brief(sorted(set(range(1, n + 1)) - set(num))),
+                                                      "outside_1..n": _brief(sorted(x for x in cnt if not 1 <= x <= n)),
+                                                      "duplicated": _brief(sorted(x for x, c in cnt.items() if c > 1))}))
     if out:
         return out[:3]
     # Back edges, judged without assuming which DFS the code ran (any successor order is a legitimate DFS):
@@ -105,13 +119,13 @@ def oracle(G, reply, num, rpo):
                                      "(no forward-numbered path from the target back to the source)",
                                 key=None, expected="num[%d] < num[%d]" % (u, v), observed=[num[u], num[v]]))
     if sorted(rpo) != list(range(n)) or any(num[a] > num[b] for a, b in zip(rpo, rpo[1:])):
-        out.append(dict(case=case, what="Graph.rpo is not the nodes sorted by num", key=None, expected="sorted", observed=rpo))
+        out.append(dict(case=case, what="Graph.rpo is not the nodes sorted by num", key=None, expected="sorted", observed=_brief(rpo, 40)))
     return out[:3]
 
 
-def evaluate(G):
+def evaluate(G, desc=None):
     reply, num, po, rpo = real_rpo(G)
-    fails = oracle(G, reply, num, rpo)
+    fails = oracle(G, reply, num, rpo, desc)
     f = graphgen.features(G)
     tags = [k for k in ("rooted", "self_loop", "catch", "dup_suc") if f[k]]
     tags.append("n<=5" if f["n"] <= 5 else "n<=40" if f["n"] <= 40 else "n<=100" if f["n"] <= 100 else "n>100")
@@ -149,6 +163,8 @@ def exhaustive_tasks(max_n, chunks_last):
 
 def run(ck: Check):
     import time
+    ck.pins_changed(PINS)
+    esc = getattr(ck, "escalated", False)
     t0 = time.time()
     ck.prove(exes=[EXE])
     t_prove = time.time() - t0
@@ -160,7 +176,12 @@ def run(ck: Check):
                "distinct = distinct graph; non-trivial = rooted with at least 3 nodes (only rooted graphs are judged by the oracle)")
     tasks = [{"kind": "list", "graphs": corpus_graphs(), "module": MODULE}]
     tasks += exhaustive_tasks(4 if ck.quick else 5, 16 if ck.quick else 256)
-    nrand = 1600 if ck.quick else 40000
+    if ck.quick and esc:
+        # a modelled function changed: every 16th five-node digraph on top of the quick scope
+        tasks += [{"kind": "exh", "n": 5, "lo": lo, "hi": lo + (1 << 14), "module": MODULE} for lo in range(0, 1 << 25, 1 << 18)]
+    ltasks, limit = large_tasks(MODULE, esc or not ck.quick)
+    tasks = ltasks + tasks
+    nrand = 1600 if ck.quick and not esc else 40000
     per = nrand // 16
     tasks += [{"kind": "random", "seed": "C19/%d/%d" % (ck.seed, i), "count": per, "max_n": 300, "module": MODULE}
               for i in range(16)]
@@ -168,7 +189,12 @@ def run(ck: Check):
     tags, total = sweep(ck, "rpo", tasks, NPROC)
     ck.notes.append("wall: proof leg (lake build under the shared lock + axiom audit) %.1fs, correspondence+search sweep on %d processes %.1fs"
                     % (t_prove, NPROC, time.time() - t0))
-    ck.cover(dist={k: v for k, v in sorted(tags.items())})
+    ck.cover(dist=dict({k: v for k, v in sorted(tags.items())}, recursion_limit_set_by_androguard=limit,
+                       large_graphs=sorted(total["large_info"])))
+    ck.rule += ("; large-size stream (always): %d named graphs (family, n, seed) of six families with edges into the entry, sizes around "
+                "half the recursion limit androguard sets (%d), 3000 and limit+100; DFS depths exercised are listed in "
+                "input_distribution.large_graphs (graphs whose DFS depth exceeds limit-400 are skipped: the recursive code raises "
+                "RecursionError there)" % (len(ltasks), limit))
     ck.assumptions.append("Python's set membership / attribute assignment are modelled as list membership / function update; "
                           "generator nesting is modelled by structural recursion on fuel (RecursionError beyond ~900-deep graphs is outside the model)")
     ck.notes.append("unrooted graphs are compared model-vs-code (num of unreachable nodes stays 0) but not judged: the property speaks of rooted graphs")
@@ -177,17 +203,25 @@ def run(ck: Check):
 def replay(ck: Check, rp):
     c = rp.get("case") or rp.get("first_divergence", {})
     print("replay", json.dumps(c))
-    gs = c.get("graph") or " ".join(c.get("request", "").split(" ")[1:])
-    if gs:
-        G = graphgen.decode(gs)
+    desc = c.get("large")
+    rq = c.get("request", "")
+    if not desc and " large family=" in rq:
+        kv = dict(t.split("=") for t in rq.split(" ")[2:])
+        desc = {"family": kv["family"], "n": int(kv["n"]), "seed": kv["seed"]}
+    gs = None if desc else (c.get("graph") or " ".join(rq.split(" ")[1:]))
+    if desc or gs:
+        sd = desc and (int(desc["seed"]) if str(desc["seed"]).isdigit() else desc["seed"])
+        G = graphgen.large_graph(desc["family"], int(desc["n"]), sd) if desc else graphgen.decode(gs)
         reply, num, po, rpo = real_rpo(G)
-        print("real :", reply)
-        print("model:", canon_model(Driver(EXE).ask([CMD + " " + gs])[0]))
-        if num is not None and graphgen.is_rooted(G):
+        model = canon_model(Driver(EXE).ask([CMD + " " + graphgen.encode(G)])[0])
+        a, b = short_diff(reply, model)
+        print("real :", a if reply != model else a[:200])
+        print("model:", b if reply != model else "(identical)")
+        if num is not None and graphgen.is_rooted(G) and G[0] <= 60:
             pre, post = dfs_intervals(G)
             back = [[u, v] for u in range(G[0]) for v in graphgen.all_sucs(G, u) if pre[v] <= pre[u] and post[u] <= post[v]]
             print("back edges of the DFS in all_sucs order:", back)
-        for f in oracle(G, reply, num, rpo):
+        for f in oracle(G, reply, num, rpo, desc):
             print("oracle:", f["what"], "expected", f["expected"], "observed", f["observed"])
             return 1
     return 0
